@@ -149,22 +149,20 @@ theorem cast_sites_pinned : segCastSites =
 /-- ... and a cast in front of the comparison *would* wrap: label 300 narrowed to uint8 is 44 -/
 example : wrap 8 300 = 44 ∧ (if wrap 8 300 = 300 then 1 else 0) = (0 : Nat) := by decide
 
-/-- The region of the open finding `C01-float-labelmap-undescribed` and of its FRACTIONAL sibling: a 3-D *float* mask
-"represents a single segment"; the library gives that meaning only when the descriptions are exactly what such a mask
-can address -- segment number 1 described for BINARY / LABELMAP, the single description `[1]` for FRACTIONAL.
-Outside, the mask is accepted but stored under an undescribed label (LABELMAP without segment 1) or copied to every
-described segment (FRACTIONAL with several descriptions): `counterexample_float_label_undescribed`,
-`counterexample_float_fraction_copied`. -/
-def FloatLabelDescribed (t : SegType) (segs : List Nat) : Mask → Prop
-  | .fltLabel _ => if t = .fractional then segs = [1] else 1 ∈ segs
-  | _ => True
-
-/-- (6-partial) Round trip *including* the region of the open finding.  There `expectedPlane` only says what the
-code does (nothing for the described segments of a LABELMAP whose float mask went to label 1; the same plane for
-every segment of a FRACTIONAL float mask) -- so as a statement of the property this is **partial** in that region;
-`C01_roundtrip` below is the property at full strength outside it.  Full statement that does not hold: "… for every
-accepted mask the described segments read back as the mask the user meant", refuted by the two counterexamples. -/
-theorem C01_roundtrip_partial (codec : Option Codec) (hcodec : ∀ c, codec = some c → ∀ x, c.dec (c.enc x) = x)
+/-- (6) **C01_roundtrip.**  For every segmentation type (BINARY, FRACTIONAL, LABELMAP), every layout and dtype
+class of the mask (2-D/3-D label map or 4-D stack; bool/unsigned integers or floats), every
+`max_fractional_value`, either empty-frame policy (including masks that are entirely empty, and planes or single
+(segment, plane) frames that are empty), every frame size `rows*cols` (divisible by 8 or not, smaller than 8 or
+not), every plane order, and either transport (native 1/8/16 bit with the trailing pad as written, or an
+encapsulated syntax with *any* lossless codec): if the constructor accepts the input (`build … = .ok o`; a 2-D/3-D float
+mask is accepted only with descriptions it can address -- `castMask_rejects_undescribed_float`,
+`castMask_rejects_float_fraction_several`, the two defects fixed in f08a76b / d437594), then reading any
+list of source planes back with `assert_missing_frames_are_empty` -- in particular all of them in the order supplied
+-- succeeds and returns, for every requested plane `i` and every described segment `j`, exactly the property's
+expectation `expectedPlane` computed from the user's mask.  Fractions: `expectedPlane` rounds the *exact* product
+`q·mfv`; the code rounds the float product, which is the same integer unless `q·mfv` is within float error of a tie
+(`float_product_rounds_alike`). -/
+theorem C01_roundtrip (codec : Option Codec) (hcodec : ∀ c, codec = some c → ∀ x, c.dec (c.enc x) = x)
     (rows cols : Nat) (t : SegType) (segs : List Nat) (mfv : Nat) (omt : Bool) (order : List Nat) (m : Mask)
     (hperm : order.Perm (List.range m.numPlanes))
     (request : List Nat) (hreq : ∀ p ∈ request, p < m.numPlanes)
@@ -179,41 +177,15 @@ theorem C01_roundtrip_partial (codec : Option Codec) (hcodec : ∀ c, codec = so
   · intro p hp; exact List.mem_range.mp (hperm.subset hp)
   · exact hperm.symm.nodup List.nodup_range
 
-/-- (6) **C01_roundtrip.**  For every segmentation type (BINARY, FRACTIONAL, LABELMAP), every layout and dtype
-class of the mask (2-D/3-D label map or 4-D stack; bool/unsigned integers or floats), every
-`max_fractional_value`, either empty-frame policy (including masks that are entirely empty, and planes or single
-(segment, plane) frames that are empty), every frame size `rows*cols` (divisible by 8 or not, smaller than 8 or
-not), every plane order, and either transport (native 1/8/16 bit with the trailing pad as written, or an
-encapsulated syntax with *any* lossless codec): if the constructor accepts the input (`build … = .ok o`) and a 3-D
-float mask comes with descriptions it can address (`FloatLabelDescribed`: outside the open finding), then reading any
-list of source planes back with `assert_missing_frames_are_empty` -- in particular all of them in the order supplied
--- succeeds and returns, for every requested plane `i` and every described segment `j`, exactly the property's
-expectation `expectedPlane` computed from the user's mask.  Fractions: `expectedPlane` rounds the *exact* product
-`q·mfv`; the code rounds the float product, which is the same integer unless `q·mfv` is within float error of a tie
-(`float_product_rounds_alike`). -/
-theorem C01_roundtrip (codec : Option Codec) (hcodec : ∀ c, codec = some c → ∀ x, c.dec (c.enc x) = x)
-    (rows cols : Nat) (t : SegType) (segs : List Nat) (mfv : Nat) (omt : Bool) (order : List Nat) (m : Mask)
-    (_hdescr : FloatLabelDescribed t segs m)
-    (hperm : order.Perm (List.range m.numPlanes))
-    (request : List Nat) (hreq : ∀ p ∈ request, p < m.numPlanes)
-    (o : SegObj) (hb : build codec rows cols t segs mfv omt order m = .ok o) :
-    ∃ out, readBySource codec o request .assertEmpty = .ok out ∧ out.length = request.length ∧
-      ∀ i (hi : i < request.length) (ho : i < out.length),
-        out[i].length = segs.length ∧
-        ∀ j (hj : j < segs.length) (hj' : j < out[i].length),
-          ∃ mpl, m.plane? request[i] = some mpl ∧ expectedPlane t mfv j segs[j] mpl = some out[i][j] :=
-  C01_roundtrip_partial codec hcodec rows cols t segs mfv omt order m hperm request hreq o hb
-
 /-- (6a) ... in particular for the source planes *in the order they were supplied*. -/
 theorem C01_roundtrip_supplied_order (codec : Option Codec) (hcodec : ∀ c, codec = some c → ∀ x, c.dec (c.enc x) = x)
     (rows cols : Nat) (t : SegType) (segs : List Nat) (mfv : Nat) (omt : Bool) (order : List Nat) (m : Mask)
-    (hdescr : FloatLabelDescribed t segs m)
     (hperm : order.Perm (List.range m.numPlanes))
     (o : SegObj) (hb : build codec rows cols t segs mfv omt order m = .ok o) :
     ∃ out, readBySource codec o (List.range m.numPlanes) .assertEmpty = .ok out ∧ out.length = m.numPlanes ∧
       ∀ p (_ : p < m.numPlanes) (ho : p < out.length) j (hj : j < segs.length) (hj' : j < out[p].length),
         ∃ mpl, m.plane? p = some mpl ∧ expectedPlane t mfv j segs[j] mpl = some out[p][j] := by
-  obtain ⟨out, h1, h2, h3⟩ := C01_roundtrip codec hcodec rows cols t segs mfv omt order m hdescr hperm
+  obtain ⟨out, h1, h2, h3⟩ := C01_roundtrip codec hcodec rows cols t segs mfv omt order m hperm
     (List.range m.numPlanes) (fun p hp => List.mem_range.mp hp) o hb
   refine ⟨out, h1, by simpa using h2, ?_⟩
   intro p hp ho j hj hj'
@@ -353,28 +325,29 @@ theorem castMask_rejects_undescribed (segs : List Nat) (t : SegType) (ps : List 
     (hpl : pl ∈ ps) (hv : v ∈ pl) (hnot : v ∉ 0 :: segs) : castMask segs t (.intLabel ps) = .error .value :=
   reject_undescribed segs t ps pl v hpl hv hnot
 
-/-! Open finding `C01-float-labelmap-undescribed` (guide §7.4).  Full statement that does **not** hold of the code:
+/-- ... and the same for a binary 2-D/3-D *float* mask (after the cast it is a label map holding label 1): if a pixel is
+1.0 and segment number 1 is not described the mask is refused, exactly like the integer mask above.  (This was the open
+finding `C01-float-labelmap-undescribed`: such a mask was stored under the undescribed label 1; fixed in /repo f08a76b,
+the guard is regenerated as `castFloatLabelGuard`, T22.) -/
+theorem castMask_rejects_undescribed_float (segs : List Nat) (t : SegType) (ht : t ≠ .fractional) (ps : List (List Rat))
+    (pl : List Rat) (hpl : pl ∈ ps) (h1 : (1 : Rat) ∈ pl) (hnot : 1 ∉ segs) :
+    castMask segs t (.fltLabel ps) = .error .value :=
+  reject_undescribed_float segs t ht ps pl hpl h1 hnot
 
-    theorem castMask_rejects_undescribed_float (segs) (ps : List (List Rat)) (pl ∈ ps) (1 ∈ pl) (1 ∉ segs) :
-        castMask segs .labelmap (.fltLabel ps) = .error .value
+/-- a 2-D/3-D array of *fractions* is one segment: with more than one described segment it is refused (a 4-D array is
+required).  (This was the open finding `C01-float-fraction-copied`: the mask was stored once per described segment; fixed
+in /repo d437594, the guard is regenerated as `castFloatFractionGuard`, T22.) -/
+theorem castMask_rejects_float_fraction_several (segs : List Nat) (ps : List (List Rat)) (h : 1 < segs.length) :
+    castMask segs .fractional (.fltLabel ps) = .error .value :=
+  reject_float_fraction_several segs ps h
 
-(a binary 3-D float mask is segment number 1; if 1 is not described the mask must be refused exactly like the
-integer mask in `castMask_rejects_undescribed`).  Proved instead: the integer/bool case in full
-(`castMask_rejects_undescribed`) and the counterexample on the witness of the finding. -/
+/-- the witnesses of the two former findings are refused now ... -/
+example : castMask [3] .labelmap (.fltLabel [[1]]) = .error .value ∧
+    castMask [1, 2] .fractional (.fltLabel [[1/2, 0]]) = .error .value := by decide +kernel
 
-/-- the float mask [[1.0]] with descriptions [3] is accepted and stored under the undescribed label 1 ... -/
-theorem counterexample_float_label_undescribed :
-    castMask [3] .labelmap (.fltLabel [[1]]) = .ok (.intLabel [[1]], .no) := by decide +kernel
-
-/-- ... whereas the same mask as an integer array is refused -/
-theorem castMask_rejects_undescribed_partial :
-    castMask [3] .labelmap (.intLabel [[1]]) = .error .value :=
-  castMask_rejects_undescribed [3] .labelmap [[1]] [1] 1 (by simp) (by simp) (by decide)
-
-/-- the FRACTIONAL sibling of the open finding: a 3-D float mask with two descriptions is stored for *both* segments -/
-theorem counterexample_float_fraction_copied :
-    cellE (.fltLabel [[1/2, 0]]) [1, 2] .fractional 255 (some 1) 0 = .ok [128, 0] ∧
-    cellE (.fltLabel [[1/2, 0]]) [1, 2] .fractional 255 (some 2) 0 = .ok [128, 0] := by decide +kernel
+/-- ... while the same masks with descriptions they can address are accepted -/
+example : castMask [1, 3] .labelmap (.fltLabel [[1]]) = .ok (.intLabel [[1]], .no) ∧
+    castMask [1] .fractional (.fltLabel [[1/2, 0]]) = .ok (.fltLabel [[1/2, 0]], .no) := by decide +kernel
 
 /-- a stacked (4-D) integer mask that is not binary -/
 theorem castMask_rejects_nonbinary_stack (segs : List Nat) (t : SegType) (ps : List (List (List Nat)))
@@ -439,8 +412,9 @@ model functions are unchanged; these say that the comparisons, constants, indice
 the ones the source has now. -/
 
 /-- (9a) `_check_and_cast_pixel_array`: the fast undescribed-label test, the refusal of non-binary stacks followed by
-the overlap decision (branch order all-zero / one channel / per-pixel sums), the float range test and the
-"genuine fraction" test of the model are the regenerated expressions (T22). -/
+the overlap decision (branch order all-zero / one channel / per-pixel sums), the float range test, the "genuine
+fraction" test and the two refusals of 2-D/3-D float masks (several fractional segments; label 1 undescribed) of the model
+are the regenerated expressions (T22). -/
 theorem cast_guards_are_the_sources (segs : List Nat) (t : SegType) :
     (∀ ps, ((List.range' 1 segs.length).all (· ∈ segs) &&
           segs.all (fun s => decide (1 ≤ s) && decide (s ≤ segs.length))) = true →
@@ -453,9 +427,23 @@ theorem cast_guards_are_the_sources (segs : List Nat) (t : SegType) :
           (ps.any (fun pl => pl.any (fun ch => decide (sumNat ch > 1)))) = .ok (overlapCode (overlapOfStack n ps))) ∧
     (∀ ch, castOverlapSum (sumNat ch : Int) = .ok (decide (sumNat ch > 1))) ∧
     (∀ x : Rat, (castFloatRange x x = .error .value) ↔ (x < 0 ∨ 1 < x)) ∧
-    (∀ x : Rat, castFloatNonBoolean x = .ok (decide (0 < x ∧ x < 1))) :=
+    (∀ x : Rat, castFloatNonBoolean x = .ok (decide (0 < x ∧ x < 1))) ∧
+    (∀ ps : List (List Rat), (ps.any fun pl => pl.any fun x => decide (x < 0 ∨ 1 < x)) = false →
+        castValues segs .fractional (.fltLabel ps) =
+          (match castFloatFractionGuard (segs.length : Int) 3 with
+           | .error e => .error e
+           | .ok _ => .ok (Mask.fltLabel ps, Overlap.no))) ∧
+    (t ≠ .fractional → ∀ ps : List (List Rat), (ps.any fun pl => pl.any fun x => decide (x < 0 ∨ 1 < x)) = false →
+        (ps.any fun pl => pl.any fun x => decide (0 < x ∧ x < 1)) = false →
+        castValues segs t (.fltLabel ps) =
+          (match castFloatLabelGuard 3 (if (ps.any fun pl => pl.any fun x => decide (x = 1)) then 1 else 0)
+              (decide (1 ∉ segs)) with
+           | .error e => .error e
+           | .ok _ => .ok (Mask.intLabel (ps.map (·.map ratToNat)), Overlap.no))) :=
   ⟨fun ps hc => undescribed_fast_gen segs ps hc, fun ps => castValues_intStack_gen segs t ps,
-   fun n ps => overlapOfStack_gen n ps, overlapSum_gen, floatRange_gen, floatNonBoolean_gen⟩
+   fun n ps => overlapOfStack_gen n ps, overlapSum_gen, floatRange_gen, floatNonBoolean_gen,
+   fun ps hr => castValues_fltLabel_fraction_gen segs ps hr,
+   fun ht ps hr hb => castValues_fltLabel_binary_gen segs t ht ps hr hb⟩
 
 /-- (9b) Frame loop and `_get_segment_pixel_array`: a single-segment frame is dropped exactly under the regenerated
 skip test; segment `s` of a stack is read from the regenerated channel index; binary values are stretched exactly
@@ -487,7 +475,9 @@ theorem frame_numbering_is_the_sources (o : SegObj) (request : List Nat) :
 /-- non-vacuity of (9): the regenerated guards on concrete values -/
 example : castStackMaxGuard 2 = .error .value ∧ castUndescribedFast 3 4 = .ok true ∧ castOverlapInt 1 3 true = .ok 1 ∧
     loopSkipGuard true false = .ok true ∧ segChannelIndex 3 = .ok 2 ∧ pffgFrameNumber 0 = .ok 1 ∧
-    srcFrameMissing 3 2 = .ok true ∧ srcFrameMissing 2 2 = .ok false := by decide
+    srcFrameMissing 3 2 = .ok true ∧ srcFrameMissing 2 2 = .ok false ∧
+    castFloatFractionGuard 2 3 = .error .value ∧ castFloatFractionGuard 2 4 = .ok 0 ∧
+    castFloatLabelGuard 3 1 true = .error .value ∧ castFloatLabelGuard 3 1 false = .ok 0 := by decide +kernel
 
 /-! Non-vacuity: concrete non-trivial inputs satisfying the hypotheses. -/
 
